@@ -302,7 +302,12 @@ def plan(ctx):
     beta, kb, r0, kphi, phi0 = 1.679, 529.581, 1.012, 75.9, 1.9764
     groups.append({"name": "single_water", "kind": "water1",
                    "variants": {"only": {"kind": "shipped", "name": "water/single_molecule", "end": 1e9,
-                                         "overrides": {"FixedIntervalSamplingEventHandler": {"sampling_interval": 0.43}}}},
+                                         "overrides": {"FixedIntervalSamplingEventHandler": {"sampling_interval": 0.43}}},
+                                # a tuning parameter that leaves the model unchanged: look-ahead window of the piecewise
+                                # constant bound five times shorter, bound offset smaller (most stops are window ends)
+                                "short_window": {"kind": "shipped", "name": "water/single_molecule", "end": 1e9,
+                                                 "overrides": {"FixedIntervalSamplingEventHandler": {"sampling_interval": 0.43},
+                                                               "BendingEventHandler": {"max_displacement": 0.02}}}},
                    "refs": {"bond": lambda: cdf_from_density_1d(lambda r: r * r * math.exp(-beta * kb * (r - r0) ** 2), 0.8, 1.25),
                             "angle": lambda: cdf_from_density_1d(lambda f: math.sin(f) * math.exp(-beta * kphi / 2 * (f - phi0) ** 2),
                                                                  1.2, 2.8)},
